@@ -61,6 +61,7 @@ def fast_small_start(x):
 
 def _near_square(rng, kb):
     K = gen.mant(rng, kb) if rng.random() < 0.7 else (1 << kb) - rng.randint(0, 3)
+    K = max(K, 1)
     k = rng.randrange(7)
     if k == 0: n = K * K
     elif k == 1: n = K * K - 1
